@@ -542,6 +542,51 @@ start :: fn do
 end
 ''', {"a": (0, 9)}, tags=("reent", "order"))
 
+T("reent_callee_rebound_by_argument", "callee-held-across-argument-evaluation(local)", '''
+start :: fn do
+    f := fn x: int -> int do ret x + 1 end
+    swap := fn -> int do
+        f = fn x: int -> int do ret x * 100 end
+        ret ?a
+    end
+    print(f(swap()))
+    print(f(1))
+end
+''', {"a": (0, 9)}, tags=("reent", "order"))
+
+T("reent_callee_rebound_global", "callee-held-across-argument-evaluation(global)", '''
+one :: fn x: int -> int do ret x + 1 end
+two :: fn x: int -> int do ret x * 100 end
+f := one
+swap :: fn v: int -> int do
+    f = two
+    ret v
+end
+start :: fn do
+    r :: f(swap(?a))
+    print(r)
+    print(f(?a))
+    f = one
+    print(f(f(swap(?b))))
+end
+''', {"a": (0, 9), "b": (0, 9)}, tags=("reent", "order"))
+
+T("reent_callee_rebound_second_argument", "callee-held-across-argument-evaluation(two-args)", '''
+start :: fn do
+    f := fn x: int, y: int -> int do ret x - y end
+    n := 0
+    swap := fn -> int do
+        n += 1
+        if n > ?k do
+            f = fn x: int, y: int -> int do ret y - x end
+        end
+        ret n
+    end
+    print(f(swap(), swap() * 3))
+    print(f(swap(), 10))
+end
+''', {"k": (0, 3)}, tags=("reent", "order"))
+
 # ------------------------------------------------------------------ evaluation order
 T("order_operands", "operand-order(read-then-mutating-call)", '''
 c := 1
